@@ -53,14 +53,14 @@ def shift(norm, tagmap):
     return walk(norm)
 
 
-def model_source(text, uri, opts, base=0):
+def model_source(text, uri, opts, base=0, media_type=MEDIA_TYPE):
     """(expected envelopes with ids as ["D", base + i], number of draws the source costs, accepted?)."""
     pr = engine.ALONE.parse(text, None, "ast", False, "text")
     if pr["kind"] == "doc":
         out = []
         a = len(pr["draws"])
         if opts[0]:
-            out.append({"source": {"uri": uri, "data": text, "mediaType": MEDIA_TYPE}})
+            out.append({"source": {"uri": uri, "data": text, "mediaType": media_type}})
         if opts[1]:
             out.append({"gherkinDocument": dict(shift(pr["norm"], {"A": base}), uri=uri)})
         ndraws = a
@@ -209,14 +209,18 @@ def run_stream(ts, op):
         return run_stream_zip(ts, op)
     drop = bool(ts.run.cfg.get("drop"))  # the consumer keeps no envelope object (only the checker's copies exist)
     budget = cons.get("n") if cons["k"] == "take" else None
-    it = iter(SourceEvents(paths).enum())
+    mem = op.get("events") or {}  # hand-built source events (no file involved) for some positions
+    it = iter(SourceEvents([p for i, p in enumerate(paths) if str(i) not in mem]).enum())
     d_op = len(ctx.draws)
     sources, taken, stop = [], 0, False
     for pi, path in enumerate(paths):
-        s = {"path": path, "live": [], "snap": [], "status": "ok", "d0": len(ctx.draws), "data": None}
+        s = {"path": path, "live": [], "snap": [], "status": "ok", "d0": len(ctx.draws), "data": None, "mem": mem.get(str(pi))}
         sources.append(s)
         try:
-            se = next(it)
+            if s["mem"] is not None:
+                se = {"source": {"uri": s["mem"]["uri"], "data": s["mem"]["text"], "mediaType": s["mem"]["mediaType"]}}
+            else:
+                se = next(it)
         except StopIteration:
             s["status"] = "missing"
             break
